@@ -219,12 +219,13 @@ class AT(SymObj):
         f["dtype"] = Opaque("dtype")
         for nm in ("contiguous", "to", "cpu", "clone", "detach"):
             f[nm] = lambda I2, *a, **k: self
-        f["view"] = self._view
-        f["reshape"] = self._view
+        f["view"] = self._view_b
+        f["reshape"] = self._view_b
+        f["flatten"] = self._flatten
         f["norm"] = lambda I2, *a, **k: self._norm(I2)
         f["size"] = lambda I2, *a: (self.fields["shape"][a[0]] if a else self.fields["shape"])
         f["dim"] = lambda I2: len(shape)
-        f["conj"] = lambda I2: AT(I2, self.fields["shape"], self.ortho, self.groups, ("conj", self.origin))
+        f["conj"] = self._conj
         if len(shape) == 2:
             if _partner is None:
                 sw = {0: 0, 1: 2, 2: 1}
@@ -232,6 +233,7 @@ class AT(SymObj):
                 ot = sw[o] if isinstance(o, int) else z3.If(o == 1, z3.IntVal(2), z3.If(o == 2, z3.IntVal(1), z3.IntVal(0)))
                 _partner = AT(I, (shape[1], shape[0]), ot, {1 - a: g for a, g in self.groups.items()},
                               ("mT", self.origin), _partner=self)
+                _partner.base = self
             f["mT"] = f["T"] = _partner
 
     # -- split_matrix at a call site: the result pair, with ghost handles ------------------------
@@ -289,6 +291,47 @@ class AT(SymObj):
                     return AT(I, (x, y, C), _keep(self.ortho, 1), None, ("unview", self.origin, "xy|z"))
         raise Unsupported(f"view{tuple(str(s) for s in shape)} of an abstract tensor of shape "
                           f"{tuple(str(s) for s in mine)}: not a regrouping the model can follow")
+
+    # -- ghost links used by the reader contracts (contracts/mps_readers.py) -------------------------
+    def _view_b(self, I, *shape):
+        r = self._view(I, *shape)
+        r.base = self                # the tensor this one is a view of
+        return r
+
+    def _flatten(self, I, start_dim=0, end_dim=-1):
+        shape = self.fields["shape"]
+        if len(shape) == 3 and start_dim == 0 and end_dim == 1:
+            return self._view_b(I, -1, shape[2])
+        raise Unsupported("flatten of an abstract tensor other than flatten(end_dim=1) of a factor")
+
+    def _conj(self, I):
+        r = AT(I, self.fields["shape"], self.ortho, self.groups, ("conj", self.origin))
+        r.conj_of = self
+        for nm in ("flist", "vc", "vlo", "vhi", "vok"):
+            if hasattr(self, nm):
+                setattr(r, nm, getattr(self, nm))
+        return r
+
+    def havoc(self, I, name):
+        """an arbitrary tensor of the same rank (loop-carried local): fresh non-empty dimensions (the
+        physical one kept), nothing known about orthonormality; the virtual-centre tags of the reader
+        contracts become arbitrary symbols that the loop invariant pins down"""
+        ctx = I.ctx
+        shape = self.fields["shape"]
+        new = []
+        for k, s in enumerate(shape):
+            if len(shape) == 3 and k == 1:
+                new.append(s)
+            else:
+                v = ctx.fresh(f"{name}.shape{k}", "int")
+                ctx.assume(v >= 1)
+                new.append(v)
+        t = AT(I, tuple(new), 0, None, None)
+        if hasattr(self, "flist"):
+            t.flist = self.flist
+        t.vc, t.vlo, t.vhi = (ctx.fresh(f"{name}.{nm}", "int") for nm in ("vc", "vlo", "vhi"))
+        t.vok = ctx.fresh(f"{name}.vok", "bool")
+        return t
 
     def _norm(self, I):
         v = I.ctx.fresh("norm", "real")
@@ -404,8 +447,10 @@ class FactorList(SymObj):
             return [self.getitem(I, lo), self.getitem(I, ops.add(lo, 1))]
         k = self._index(I, idx, "read")
         f = self.fields
-        return AT(I, (f["chiL"].at(k), f["d"], f["chiR"].at(k)), f["iso"].at(k), None,
-                  ("site", self.oid, k, self.ver))
+        t = AT(I, (f["chiL"].at(k), f["d"], f["chiR"].at(k)), f["iso"].at(k), None,
+               ("site", self.oid, k, self.ver))
+        t.flist = self
+        return t
 
     def _current(self, I, origin, site):
         """origin is the value of `site` as the list holds it now"""
@@ -582,7 +627,7 @@ def m_qr(I, m, mode="reduced", **k):
     qid = next(_ids)
     q = AT(I, (R, kk), 1, {0: m.groups[0]} if 0 in m.groups else {}, ("qr_q", qid))
     r = AT(I, (kk, C), 0, {1: m.groups[1]} if 1 in m.groups else {}, ("qr_r", qid))
-    I.ctx.ghost.setdefault("qrs", {})[qid] = dict(source=m.origin)
+    I.ctx.ghost.setdefault("qrs", {})[qid] = dict(source=m.origin, src_at=m)
     I.session.note("torch.linalg.qr: assumed contract (m = q r, q has orthonormal columns, reduced shapes)")
     return (q, r)
 
